@@ -93,6 +93,9 @@ pub(crate) struct TermSegments {
     seg_starts: [AtomicU64; MAX_TERM_SEGMENTS],
     /// Term of each historical segment, parallel to `seg_starts`.
     seg_terms: [AtomicU64; MAX_TERM_SEGMENTS],
+    /// First index of the first segment that no longer fitted into the arrays (u64::MAX = none).
+    /// Lookups at or above it (and below the hot segment) must fall back to the SkipMap.
+    overflow_start: AtomicU64,
 }
 
 impl TermSegments {
@@ -103,6 +106,7 @@ impl TermSegments {
             seg_count: AtomicUsize::new(0),
             seg_starts: std::array::from_fn(|_| AtomicU64::new(0)),
             seg_terms: std::array::from_fn(|_| AtomicU64::new(0)),
+            overflow_start: AtomicU64::new(u64::MAX),
         }
     }
 
@@ -122,8 +126,12 @@ impl TermSegments {
         if index >= last_start {
             return Some(last_term);
         }
-        // Cold path: reverse-scan historical segments.
-        let count = self.seg_count.load(Ordering::Acquire);
+        // Segments that did not fit into the arrays are not recorded: let the caller fall back.
+        if index >= self.overflow_start.load(Ordering::Acquire) {
+            return None;
+        }
+        // Cold path: reverse-scan historical segments (seg_count keeps counting past the capacity).
+        let count = self.seg_count.load(Ordering::Acquire).min(MAX_TERM_SEGMENTS);
         (0..count).rev().find_map(|i| {
             let start = self.seg_starts[i].load(Ordering::Acquire);
             if start <= index {
@@ -166,6 +174,8 @@ impl TermSegments {
             if i < MAX_TERM_SEGMENTS {
                 self.seg_starts[i].store(ls, Ordering::Release);
                 self.seg_terms[i].store(lt, Ordering::Release);
+            } else {
+                self.overflow_start.fetch_min(ls, Ordering::AcqRel);
             }
             // Always update hot atomics so the current term remains O(1).
             self.last_term_start.store(entry.index, Ordering::Release);
@@ -176,6 +186,7 @@ impl TermSegments {
     /// Reset to empty. Called on log reset (snapshot install / full rewind).
     pub(crate) fn clear(&self) {
         self.seg_count.store(0, Ordering::Release);
+        self.overflow_start.store(u64::MAX, Ordering::Release);
         self.last_term.store(0, Ordering::Release);
         self.last_term_start.store(0, Ordering::Release);
     }
